@@ -835,9 +835,12 @@ class Ev:
             return ('opaque', 'nested indexed store')
         if step[0] == 'r':
             lo, hi = step[1], step[2]
-            if len(path) != 1:
-                return ('opaque', 'nested range store')
             n = T.mk_len(v)
+            if len(path) != 1:
+                # a store inside a sub-range (`let (a, b) = v.split_at_mut(k); a[i] = x`): rewrite the sub-range, then splice it back
+                new = self.set_path(T.mk_slice(v, lo, hi), path[1:], new, None)
+                if new[0] == 'opaque':
+                    return new
             return T.mk_concat([T.mk_slice(v, T.I(0), lo), new, T.mk_slice(v, hi, n)])
         return ('opaque', 'store path')
 
